@@ -35,7 +35,9 @@ Definition expected_upto (vs ds : list Z) (r t0 h : Z) : list (Z * Z) :=
 (* acceptance test for an observed log.
    obs entry = (kind, ms, value / outcome code, sequence reported active right after the event)
    kinds: 0 first request returned, 1 value submitted, 2 finish call-back ran, 3 command starts, 4 command returned,
-          5 horizon.  Values of the first sequence are < 100, values of a replacement sequence are >= 100.
+          5 horizon, 6 second (concurrent) command returned.  Which sequence a submitted value belongs to is decided by its
+          position in the log (before the command starts: the first sequence; after it returned: the replacement), never
+          by the value itself — a replacement may repeat the running sequence exactly.
    command kinds: 0 none, 1 new sequence, 2 expression, 3 empty expression, 4 disable *)
 
 Definition obs_ev := (Z * Z * Z * bool)%type.
@@ -48,8 +50,7 @@ Definition pair_eqb (a b : Z * Z) : bool := (fst a =? fst b) && (snd a =? snd b)
 Definition ev_eqb (a b : obs_ev) : bool :=
   (kind_of a =? kind_of b) && (time_of a =? time_of b) && (val_of a =? val_of b) && Bool.eqb (act_of a) (act_of b).
 
-Definition is_old (e : obs_ev) : bool := (kind_of e =? 1) && (val_of e <? 100).
-Definition is_new (e : obs_ev) : bool := (kind_of e =? 1) && (100 <=? val_of e).
+Definition is_sub_ev (e : obs_ev) : bool := kind_of e =? 1.
 Definition tv (l : list obs_ev) : list (Z * Z) := map (fun e => (time_of e, val_of e)) l.
 
 (* split at the first event of kind k *)
@@ -74,7 +75,8 @@ Record spec_scn := SpecScn {
   ss_enabled : bool; ss_writable : bool; ss_expr : bool;
   ss_vals : list Z; ss_delays : list Z; ss_repeat : Z;
   ss_ckind : Z; ss_cvals : list Z; ss_cdelays : list Z; ss_crepeat : Z;
-  ss_at : Z; ss_horizon : Z }.
+  ss_at : Z; ss_horizon : Z;
+  ss_dlat : Z   (* latency of the driver's handle_disable() hook: disable() returns that much later *) }.
 
 (* outcome of a sequence request: 0 accepted, else the refusal *)
 Definition request_outcome (enabled writable expr : bool) (vs ds : list Z) : Z :=
@@ -114,12 +116,13 @@ Definition spec_ok (s : spec_scn) (obs : list obs_ev) : bool :=
         | Some (c, d :: after) =>
             (* everything of the first sequence is before the command, in schedule order, nothing later than [at_],
                nothing due before [at_] is missing *)
-            let olds := tv (filter is_old before) in
+            let olds := tv (filter is_sub_ev before) in
             let n_old := List.length olds in
             let strictly := List.length (filter (fun '(t, _) => t <? at_) full) in
             let upto := List.length (filter (fun '(t, _) => t <=? at_) full) in
             let fin := accepted && finished vs ds r n_old in
             let act_c := accepted && negb fin in
+            let act_p := ss_enabled s in   (* the port is enabled at the command iff it was at the start *)
             stretch_ok before (firstn n_old full) fin 0 &&
             (strictly <=? n_old)%nat && (n_old <=? upto)%nat &&
             ev_eqb c (3, at_, 0, act_c) &&
@@ -149,10 +152,92 @@ Definition spec_ok (s : spec_scn) (obs : list obs_ev) : bool :=
                 else
                   (* expression / empty expression / disable: accepted, nothing is active or submitted afterwards.
                      (expression commands on a read-only port are ignored by set_attr: no sequence can be running there) *)
-                  ev_eqb d (4, at_, 0, false) && (List.length body =? 0)%nat && ev_eqb e (5, h, 0, false)
+                  let ret := if (k =? 4) && act_p then at_ + dclip (ss_dlat s) else at_ in
+                  ev_eqb d (4, ret, 0, false) && (List.length body =? 0)%nat && ev_eqb e (5, h, 0, false)
             | _ => false
             end
         | _ => false
         end
+  | [] => false
+  end.
+
+(* ------------------------------------------------------------------------------------------------------------ *)
+(* two concurrent commands (each a new sequence, kind 1, or disable, kind 4) started at [at_] in the same loop iteration.
+   Whatever the interleaving, the outcome must be that of one of the two serial orders from the moment both have returned:
+   - the first sequence submits nothing after the commands start;
+   - until both have returned, only a prefix of ONE new sequence's schedule may appear, all of it at the instant [at_]
+     (a request that was served and then superseded);
+   - after both have returned exactly one survivor plays: with a disable among the commands, nothing; with two sequence
+     requests, one of the two, from v1 at [at_], following its schedule, finishing once — never both, never an orphan. *)
+
+Definition is_ret (e : obs_ev) : bool := (kind_of e =? 4) || (kind_of e =? 6).
+
+(* split at the LAST returned-event: (transient, tail after it) *)
+Fixpoint split_last_ret (l : list obs_ev) : option (list obs_ev * list obs_ev) :=
+  match l with
+  | [] => None
+  | e :: r =>
+      match split_last_ret r with
+      | Some (a, b) => Some (e :: a, b)
+      | None => if is_ret e then Some ([], r) else None
+      end
+  end.
+
+Fixpoint prefix_of (a b : list (Z * Z)) : bool :=
+  match a, b with
+  | [], _ => true
+  | x :: a', y :: b' => pair_eqb x y && prefix_of a' b'
+  | _, _ => false
+  end.
+
+(* candidates for the surviving sequence: (values, delays, repeat) *)
+Definition survivor_ok (tail : list obs_ev) (at_ h : Z) (c : list Z * list Z * Z) : bool :=
+  let '(vs, ds, r) := c in
+  let installed := negb (List.length vs =? 0)%nat in
+  let full := if installed then expected_upto vs ds r at_ h else [] in
+  let fin := installed && finished vs ds r (List.length full) in
+  let '(body, tl) := split_at 5 tail in
+  stretch_ok body full fin at_ &&
+  match tl with Some (e, []) => ev_eqb e (5, h, 0, installed && negb fin) | _ => false end.
+
+Definition spec2_ok (s : spec_scn) (k2 : Z) (cvs2 cds2 : list Z) (cr2 : Z) (obs : list obs_ev) : bool :=
+  let h := ss_horizon s in let at_ := ss_at s in
+  let vs := ss_vals s in let ds := ss_delays s in let r := ss_repeat s in
+  let k1 := ss_ckind s in
+  match obs with
+  | p :: rest =>
+      ev_eqb p (0, 0, 0, true) &&
+      let full := expected_upto vs ds r 0 h in
+      let '(before, tl) := split_at 3 rest in
+      match tl with
+      | Some (c, after) =>
+          let n_old := List.length (filter is_sub_ev before) in
+          let strictly := List.length (filter (fun '(t, _) => t <? at_) full) in
+          let upto := List.length (filter (fun '(t, _) => t <=? at_) full) in
+          let fin := finished vs ds r n_old in
+          stretch_ok before (firstn n_old full) fin 0 && (strictly <=? n_old)%nat && (n_old <=? upto)%nat &&
+          ev_eqb c (3, at_, 0, negb fin) &&
+          match split_last_ret after with
+          | Some (trans, tail) =>
+              (* both commands returned, once each, both accepted or (sequence request after the disable) port-disabled *)
+              let rets := filter is_ret after in
+              (List.length (filter (fun e => (kind_of e =? 4)%Z) rets) =? 1)%nat &&
+              (List.length (filter (fun e => (kind_of e =? 6)%Z) rets) =? 1)%nat &&
+              forallb (fun e => (val_of e =? 0) || ((val_of e =? 1) && ((k1 =? 4) || (k2 =? 4)))) rets &&
+              let seq1 := (ss_cvals s, ss_cdelays s, ss_crepeat s) in
+              let seq2 := (cvs2, cds2, cr2) in
+              let nothing := ([], [], 1) in
+              let tsubs := tv (filter is_sub_ev trans) in
+              let trans_ok (c : list Z * list Z * Z) :=
+                let '(cv, cd, cr) := c in
+                forallb (fun '(t, _) => t =? at_) tsubs && prefix_of tsubs (expected_upto cv cd cr at_ h) in
+              if (k1 =? 4) || (k2 =? 4) then
+                survivor_ok tail at_ h nothing && (trans_ok seq1 || trans_ok seq2 || (List.length tsubs =? 0)%nat)
+              else
+                (survivor_ok tail at_ h seq1 && trans_ok seq2) || (survivor_ok tail at_ h seq2 && trans_ok seq1)
+          | None => false
+          end
+      | None => false
+      end
   | [] => false
   end.
